@@ -61,6 +61,8 @@ def plan(tier: str, seed: int) -> t.List[dict]:
         specs.append({"name": f"rand-{i}", "kind": "rand", "n": (5000 if q else 100000) // (8 if q else 16)})
     for i in range(4 if q else 16):
         specs.append({"name": f"seedcache-{i}", "kind": "seedcache", "n": 6 if q else 40})
+    for i in range(2 if q else 8):
+        specs.append({"name": f"moving-{i}", "kind": "moving", "n": 40 if q else 400})
     # the process environment is part of the configuration: local time zones (set before the interpreter imports anything)
     for tz in ("Europe/Berlin", "America/New_York", "Australia/Sydney", "Asia/Kolkata") if q else ("Europe/Berlin", "America/New_York", "Australia/Sydney", "Asia/Kolkata", "Pacific/Chatham", "America/St_Johns", "Africa/Monrovia", "UTC"):
         specs.append({"name": f"tz-{tz.replace('/', '_')}", "kind": "l0", "l0s": [361, 362, 400 + len(tz)], "env": {"TZ": tz}})
@@ -155,6 +157,44 @@ def check_instant(rec: Recorder, ft: int, phase: int, near: bool, fresh: bool = 
     rec.case((ft, phase), nontrivial=near)
 
 
+def run_moving(spec: dict, rec: Recorder) -> None:
+    """A clock that moves while the call runs (every read of the clock returns a later instant, as a real clock does), placed
+    so that an L2 / L1 / L0 boundary falls between the first and a later read.  Whatever number of times the code reads the
+    clock, the blob must name the interval of ONE of the instants it was shown - never a mixture of two of them."""
+    import dpapi_ng
+
+    rng = common.rng_for(ID, spec)
+    c = dpapi_ng.KeyCache()
+    c.load_key(ROOT, RKID)
+    for i in range(spec["n"]):
+        l0 = rng.randrange(340, 701)
+        level = i % 3
+        bnd = (l0 * 1024 + (0 if level == 0 else rng.randrange(1, 32)) * 32 + (0 if level < 2 else rng.randrange(1, 32))) * B
+        for step_ticks in (1, 7, 100):
+            for before in range(0, 6):  # the boundary is crossed by the (before+1)-th read
+                start_ft = bnd - before * step_ticks - 1
+                wit = {"kind": "moving", "boundary_filetime": str(bnd), "level": ["L0", "L1", "L2"][level], "step_ticks": step_ticks, "reads_before_boundary": before}
+                with mon.CLOCK.at_ns(mon.filetime_to_ns(start_ft, 50), step_ns=step_ticks * 100) as clk:
+                    try:
+                        blob = dpapi_ng.ncrypt_protect_secret(b"c09-moving", SID, root_key_identifier=RKID, cache=c)
+                    except Exception as e:
+                        rec.violation("protect-raised", f"moving clock around {bnd}: {type(e).__name__}: {e}", wit)
+                        continue
+                    served = list(clk.served)
+                if not served:
+                    rec.count("clock_not_steerable")
+                    continue
+                kid = gkdi.dec_key_identifier(cms.parse(blob)["key_identifier"])
+                got = (kid["l0"], kid["l1"], kid["l2"])
+                shown = {expected(v // 100 + mon.EPOCH_FILETIME) for v in served}
+                rec.count("moving_clock_identifiers_compared")
+                rec.range("clock_reads_per_protect", len(served))
+                if got not in shown:
+                    rec.violation("interval-mixed-from-several-clock-reads", f"the clock showed instants in {sorted(shown)} during the call, the blob names {got}: an interval the clock was never in", wit)
+                rec.case(("moving", bnd, step_ticks, before), nontrivial=True)
+    rec.sample({"kind": "moving clock", "boundaries": spec["n"], "steps": [1, 7, 100], "reads_before_boundary": "0..5"})
+
+
 def run_seedcache(spec: dict, rec: Recorder) -> None:
     """The key comes from seed keys previously retrieved from a DC (no root key loaded): an unprotect
     through the in-memory reference DC fills the cache with the envelope for (L0, a, b); protect calls
@@ -239,6 +279,10 @@ def run_shard(spec: dict, rec: Recorder) -> None:
     if spec["kind"] == "seedcache":
         if common.calibrate(rec, "crypto", "cms", "rpc", "epm", "sd"):
             run_seedcache(spec, rec)
+        return
+    if spec["kind"] == "moving":
+        if common.calibrate(rec, "cms"):
+            run_moving(spec, rec)
         return
     rng = common.rng_for(ID, spec)
     kind = spec["kind"]
